@@ -153,7 +153,7 @@ Proof.
   - cbn [do_flush o_mem o_owned o_trace]. repeat split; auto.
     + intros x Hx. apply do_flush_dirty in Hx. auto.
     + eexists. rewrite T1, <- app_assoc. split; [reflexivity|]. repeat constructor.
-  - cbn [do_flush do_munmap o_mem o_owned o_trace]. rewrite O1. repeat split; auto.
+  - cbn [do_flush do_munmap munmap_core ev o_mem o_owned o_trace]. rewrite O1. repeat split; auto.
     + intros x Hx. apply do_flush_dirty in Hx. apply do_munmap_dirty in Hx. auto.
     + eexists. rewrite T1, <- !app_assoc. split; [reflexivity|]. repeat constructor; auto.
 Qed.
